@@ -87,8 +87,8 @@ class Session:
     def enc(self, x):
         return encode(x, self.refs)
 
-    def model(self, kind, gamma="default", model_cls=None, **params):
-        """Construct a model.  gamma: name of a callback."""
+    def model(self, kind, gamma="default", model_cls=None, _mid=None, **params):
+        """Construct a model.  gamma: name of a callback.  _mid: the id a script gives the object."""
         cls = model_cls or self.classes[kind]
         kw = dict(params)
         if gamma != "default":
@@ -102,8 +102,30 @@ class Session:
             kw["gamma"] = g
         obj = cls(**kw)
         self.next_mid += 1
-        mh = ModelHandle(self.next_mid, kind, obj, gamma)
+        mh = ModelHandle(self.next_mid if _mid is None else _mid, kind, obj, gamma)
         mh.constructed = self.enc_model(mh)   # projection at construction time
+        # model0 is the configuration the OWNER chose: where an argument was given and the object holds another value
+        # (Sem!Construct reports that at the new_model event), later calls are still judged by what was asked for
+        for a in ("mu", "sigma", "beta", "kappa", "tau"):
+            v = params.get(a)
+            if isinstance(v, (int, float)) and not isinstance(v, bool):
+                try:
+                    same = float(mh.constructed[a]) == float(v)
+                except (TypeError, ValueError):
+                    same = False
+                if not same:
+                    mh.constructed[a] = fnum(float(v))
+        if isinstance(params.get("limit_sigma"), bool):
+            mh.constructed["limit"] = "T" if params["limit_sigma"] else "F"
+        if gamma != "default":
+            mh.constructed["gamma"] = gamma
+        # the constructor call is an operation of the system like any other: what was asked for (absent = none),
+        # and what the object holds at return; OpenSkill!NewModel / Sem!Construct say what it must hold
+        args = {a: (self.enc(params[a]) if a in params else leaf("none")) for a in ("mu", "sigma", "beta", "kappa", "tau")}
+        args["limit"] = self.enc(params["limit_sigma"]) if "limit_sigma" in params else leaf("none")
+        args["gamma"] = leaf("str", gamma) if gamma != "default" else leaf("none")
+        self.emit({"op": "new_model", "kind": kind, "args": args, "model": self.enc_model(mh),
+                   "out": {"kind": "ok", "exc": "", "value": leaf("none")}})
         return mh
 
     def enc_model(self, mh):
@@ -302,6 +324,12 @@ class Session:
             a.sigma = sigma
         ev["a_after"] = self.enc(a)
         ev["out"] = {"kind": "ok", "exc": "", "value": self.enc(None)}
+        self.emit(ev)
+
+    def holds(self, a, was):
+        """Observation without a call: what the object holds now, beside what it held when the caller last saw it (`was`,
+        a projection taken then).  Between two calls nothing but the caller's own assignments changes a rating."""
+        ev = {"op": "holds", "a": self.enc(a), "was": was, "out": {"kind": "ok", "exc": "", "value": self.enc(None)}}
         self.emit(ev)
 
     def sort(self, xs, group="", role=""):
